@@ -44,6 +44,24 @@ def filt_ext(repo_src, dst):
     f.files = {'gen_ext.c': txt}
     return f
 GROUPS['ext'] = Group('ext', filt_ext, c=['props/C03/contracts_ext.c'], repo_cpp=[])
+def filt_perm(repo_src, dst):
+    f = extract.Filter(repo_src, dst)
+    f.check_macros()
+    d = f.get_function(N, 'BR')
+    txt = 'static inline u_int64_t BR(u_int64_t x, u_int64_t domainPow)\n%s\n' % d['body']
+    txt += 'static ' + cify.cify(f, 'ntt_goldilocks.hpp', 'log2', 'NTT_Goldilocks_log2', [], in_class=True)
+    # the monitor needs the loop variable: every row loop gets `g_i = i; g_sub = 0;` as its first statement (rule M2-ghost)
+    body = cify.cify(f, N, 'NTT_Goldilocks::reversePermutation', 'NTT_Goldilocks_reversePermutation', [('log2', 'NTT_Goldilocks_log2')],
+                     {0: 'LOOP_ROWS', 1: 'LOOP_ROWS', 2: 'LOOP_ROWS'},
+                     extra_rules=[(r'\br \* ncols_all\b', 'PMUL(r, ncols_all)'), (r'\bi \* ncols\b', 'PMUL(i, ncols)'), (r'\br \* ncols\b', 'PMUL(r, ncols)'),
+                                  (r'\(size / extension\) \* ncols_all', 'PMUL(size / extension, ncols_all)'), (r'GElement tmp\[ncols\];', 'GElement tmp[1]; /* M2: local row buffer, abstract */')])
+    body, n = re.subn(r'(LOOP_ROWS\s*\{)', r'\1 g_i = i; g_sub = 0; /* M2-ghost */', body)
+    if n != 3 or body.count('PMUL(') < 6:
+        raise extract.ExtractError('M2: reversePermutation: expected 3 row loops and the row-offset products (found %d loops, %d products)' % (n, body.count('PMUL(')))
+    f.files = {'gen_perm_br.c': txt, 'gen_perm.c': body}
+    return f
+GROUPS['perm'] = Group('perm', filt_perm, c=['props/C03/contracts_perm.c'], repo_cpp=[])
+GROUPS['perm_f3'] = Group('perm_f3', filt_perm, c=['props/C03/contracts_perm.c'], defines=['VF_F3_ONLY'], repo_cpp=[])
 SHAPES = [(sz, nc) for sz in (1, 2, 4) for nc in (1, 2, 3, 4)] + [(0, 3), (4, 0)]
 for _sz, _nc in SHAPES:
     GROUPS['wrap_%d_%d' % (_sz, _nc)] = Group('wrap_%d_%d' % (_sz, _nc), filt_wrap, c=['props/C03/contracts_wrap.c'], defines=['VF_SIZE=%d' % _sz, 'VF_NCOLS=%d' % _nc], repo_cpp=[])
@@ -68,6 +86,12 @@ for _sz, _nc in SHAPES:
 UNITS.append(Unit('INTT_wrapper', 'wrap_2_3', 'NTT_Goldilocks_INTT', harness='hl_INTT', light=True, checks=CHK, functions=['NTT_Goldilocks::INTT (src/%s) [C-ified; NTT is a monitor]' % N]))
 UNITS.append(Unit('extendPol', 'ext', 'NTT_Goldilocks_extendPol', harness='hl_extendPol', light=True, checks=CHK + ['--memory-leak-check', '--no-malloc-may-fail'], timeout=600,
                   functions=['NTT_Goldilocks::extendPol (src/%s) [C-ified; constructor / computeR / INTT / extension NTT are monitors; arbitrary prior object state under the invariant]' % N]))
+UNITS.append(Unit('reversePermutation', 'perm', 'NTT_Goldilocks_reversePermutation', harness='hl_reversePermutation', light=True, loops='contract', checks=CHK, flags=['--unwind', '33', '--unwinding-assertions'], timeout=600,
+                  functions=['NTT_Goldilocks::reversePermutation (src/%s) [C-ified, loop contracts, ghost monitor of the row copies; all sizes 2^k, k <= 30; out of place (extension any) and in place (extension <= 1)]' % N]))
+F3_UNIT = Unit('reversePermutation_inplace_ext', 'perm_f3', 'NTT_Goldilocks_reversePermutation', harness='hl_reversePermutation', light=True, loops='contract', checks=CHK, flags=['--unwind', '33', '--unwinding-assertions'], timeout=600,
+                  functions=['NTT_Goldilocks::reversePermutation, in place with extension > 1 (src/%s) [the branch extendPol reaches for an even clamped phase count]' % N])
+if os.environ.get('VF_WITH_F3', '1') == '1':
+    UNITS.append(F3_UNIT)
 TRUSTED_BASE = ['M2 C-ification + outlining of the batch loop (rule checks the cut statement exists and the scheduling variables are still present)',
                 'the DFT equation itself is NOT decided by this check (see MANIFEST level_note)', 'CBMC, cadical']
 ASSUMPTIONS = ['object domain s <= 32, size = 2^domainPow with domainPow <= min(s, 30)']
